@@ -298,6 +298,9 @@ func (ip *Interp) Guards(st *State) map[string]bool {
 }
 func (ip *Interp) CurPos() token.Pos  { return ip.curPos }
 
+// StackFuncs returns the functions being interpreted, outermost first.
+func (ip *Interp) StackFuncs() []*ssa.Function { return append([]*ssa.Function(nil), ip.stack...) }
+
 func (ip *Interp) curFn() *ssa.Function {
 	if len(ip.stack) == 0 {
 		return nil
